@@ -22,21 +22,47 @@ pub fn judge(orc: &mut Oracle, op: &str, out: &StMoc, a: &StMoc, b: &StMoc) -> R
   Ok(Verdict { valid: t[1] == "1", pts: t[2] == "1", flags: t[3].to_string() })
 }
 
-fn variants(a: &StMoc, b: &StMoc) -> Vec<(String, Result<StMoc, String>)> {
+/// the result with, per element, the depths its two MOCs DECLARE, and the elements whose ranges are
+/// not aligned on the cells of the declared depth (such a MOC is not a valid MOC of that depth)
+fn from_moc2_labels(m: M2) -> (StMoc, Vec<String>) {
+  use moc::moc::HasMaxDepth;
+  let dt = m.depth_max_1();
+  let ds = m.depth_max_2();
+  let mut bad = Vec::new();
+  let mut elems = Vec::new();
+  for (k, e) in m.into_range_moc2_iter().enumerate() {
+    let (t, s) = e.mocs();
+    let (lt, ls) = (t.depth_max(), s.depth_max());
+    let tr: Vec<(u64, u64)> = t.moc_ranges().iter().map(|r| (r.start, r.end)).collect();
+    let sr: Vec<(u64, u64)> = s.moc_ranges().iter().map(|r| (r.start, r.end)).collect();
+    let mt = (1u64 << Q::T.shift(64, lt.min(61))) - 1;
+    let ms = (1u64 << Q::S.shift(64, ls.min(29))) - 1;
+    if lt > dt || tr.iter().any(|(a, b)| a & mt != 0 || b & mt != 0) {
+      bad.push(format!("element {}: time MOC declares depth {} (result depth {}), ranges {:?}", k, lt, dt, tr));
+    }
+    if ls > ds || sr.iter().any(|(a, b)| a & ms != 0 || b & ms != 0) {
+      bad.push(format!("element {}: space MOC declares depth {} (result depth {}), ranges {:?}", k, ls, ds, sr));
+    }
+    elems.push((tr, sr));
+  }
+  (StMoc { dt, ds, elems }, bad)
+}
+
+fn variants(a: &StMoc, b: &StMoc) -> Vec<(String, Result<(StMoc, Vec<String>), String>)> {
   let mut out = Vec::new();
   {
     let (ma, mb) = (to_moc2(a), to_moc2(b));
-    out.push(("or(&,&)".to_string(), catch(move || from_moc2(ma.or(&mb)))));
+    out.push(("or(&,&)".to_string(), catch(move || from_moc2_labels(ma.or(&mb)))));
   }
   {
     let (ma, mb) = (to_moc2(a), to_moc2(b));
-    out.push(("into_or(owned)".to_string(), catch(move || from_moc2(ma.into_or(mb)))));
+    out.push(("into_or(owned)".to_string(), catch(move || from_moc2_labels(ma.into_or(mb)))));
   }
   {
     let (ma, mb) = (to_moc2(a), to_moc2(b));
     out.push(("iterators(owned.or(borrowed))".to_string(), catch(move || {
       let it = ma.into_range_moc2_iter().or((&mb).into_range_moc2_iter());
-      from_moc2(it.into_range_moc2())
+      from_moc2_labels(it.into_range_moc2())
     })));
   }
   out
@@ -69,7 +95,11 @@ pub fn check_pair(rep: &mut Report, orc: &mut Oracle, a: &StMoc, b: &StMoc) -> b
         ok = false;
         rep.violation_c(&format!("ST union ({}) fails: {}", name, p), &format!("{} # variant={}", case, name), &p, "", "C08 terminates without failure", &panic_class(&p));
       }
-      Ok(out) => {
+      Ok((out, bad_labels)) => {
+        if let Some(bl) = bad_labels.first() {
+          ok = false;
+          rep.violation_c("ST union: an element's MOC is not a valid MOC of the depth it declares (ranges cut finer than the declared depth)", &format!("{} # variant={}", case, name), bl, "every element MOC valid at its declared depth <= the result's depth", "C08_validity_checker_exact (valid MOCs)", "or|elem-depth-label");
+        }
         let dt = a.dt.max(b.dt);
         let ds = a.ds.max(b.ds);
         if (out.dt, out.ds) != (dt, ds) {
@@ -105,7 +135,7 @@ pub fn run(ctx: &Ctx) -> Report {
   let mut rep = Report::default();
   let mut orc = Oracle::spawn();
   let mut rng = Rng::new(ctx.seed);
-  rep.rule = "pairs of valid ST-MOCs (u64 time x u64 space) over a time axis of 6-10 slots at the bottom or top of the time domain, <= 4 elements per operand, <= 3 time ranges per element, space parts drawn from 8 small S-MOCs realising equal / nested / overlapping / disjoint / full-sky; both operand orders; or(&,&), into_or, iterator form; empty operands and A=B included; plus the pairs of an exhaustive small scope (every coverage function over 4 time slots x 2 space cells, single-range elements; quick: every 37th pair, thorough: all 65536). Each output is judged by the extracted checkers valid2db and pts_opb(or). non-trivial = both operands non-empty; distinct = distinct pair".to_string();
+  rep.rule = "pairs of valid ST-MOCs (u64 time x u64 space) over a time axis of 6-10 slots at the bottom or top of the time domain, <= 4 elements per operand, <= 3 time ranges per element, space parts drawn from 8 small S-MOCs realising equal / nested / overlapping / disjoint / full-sky; both operand orders; one pair in five with an operand one level deeper on the time axis (its bounds cut the other's cells), the depth every element MOC declares is checked against its ranges; or(&,&), into_or, iterator form; empty operands and A=B included; plus the pairs of an exhaustive small scope (every coverage function over 4 time slots x 2 space cells, single-range elements; quick: every 37th pair, thorough: all 65536). Each output is judged by the extracted checkers valid2db and pts_opb(or). non-trivial = both operands non-empty; distinct = distinct pair".to_string();
   // exhaustive small scope: every pair of "space coverage as a function of the time slot" over
   // 4 time slots x 2 space cells (256 x 256 functions; consecutive slots with the same non-empty
   // coverage form one single-range element), both operand orders are covered by the enumeration.
@@ -162,6 +192,13 @@ pub fn run(ctx: &Ctx) -> Report {
     let mut b = if i % 17 == 0 { a.clone() } else { gen_stmoc(&mut rng, dt, ds, nslots, base, 4, 3) };
     if dt2 > dt {
       b.dt = dt2; // same ranges declared at a deeper depth (still valid)
+    }
+    if i % 5 == 3 && dt < 61 {
+      // an operand that is really deeper on the time axis (and possibly in space): its bounds cut
+      // into the cells of the other one
+      let ds2 = if ds < 29 && rng.chance(1, 2) { ds + 1 } else { ds };
+      b = gen_stmoc(&mut rng, dt + 1, ds2, (2 * nslots).min(16), 2 * base, 4, 3);
+      rep.count("pairs:right-operand-deeper");
     }
     check_pair(&mut rep, &mut orc, &a, &b);
     check_pair(&mut rep, &mut orc, &b, &a);
